@@ -8,8 +8,11 @@ Wn == [k |-> "wn", j |-> -1]
 Hn(n) == [k |-> "hn", js |-> Pre(<<-1, 0, -2>>, n)]
 Sum(ps) == [k |-> "sum", parts |-> ps]
 Cp(ps, cs) == [k |-> "cp", parts |-> ps, axis |-> 1, cs |-> cs]
+CONSTANT Deep        \* FALSE: the quick family; TRUE (thorough tier): more point sets and a second data vector
 XSets == { << <<0>>, <<2>> >>, << <<0>>, <<1>> >>, << <<1>> >>, << <<0, 1>>, <<1, 0>> >> }
+         \cup (IF Deep THEN { << <<0>>, <<-1>> >>, << <<-1>>, <<1>> >>, << <<2>> >>, << <<0, 0>>, <<1, 1>> >>, << <<1, 0>>, <<0, -1>> >> } ELSE {})
 Ys == <<1, -2, 3>>
+YSets == {Ys} \cup (IF Deep THEN { <<0, 3, -1>> } ELSE {})
 Diag(v) == [i \in 1..Len(v) |-> [j \in 1..Len(v) |-> IF i = j THEN v[i] ELSE <<0, 1>>]]
 Sigs(n) == { Diag(Pre(<<<<0, 1>>, <<0, 1>>, <<0, 1>>>>, n)), Diag(Pre(<<<<1, 4>>, <<1, 4>>, <<1, 4>>>>, n)), Diag(Pre(<<<<1, 1>>, <<1, 4>>, <<1, 2>>>>, n)) }
         \cup (IF n = 3 THEN { << <<<<1, 1>>, <<1, 2>>, <<0, 1>>>>, <<<<1, 2>>, <<1, 1>>, <<0, 1>>>>, <<<<0, 1>>, <<0, 1>>, <<1, 4>>>> >> } ELSE {})
@@ -25,8 +28,8 @@ VARIABLES pb, cx, out
 \* two families: everything for n <= 2 data points; for n = 3 a leaner set (exact 3x3 inverses and their products must fit 32 bits)
 Small == {X \in XSets : Len(X) <= 2}
 Big == { << <<0>>, <<1>>, <<2>> >>, << <<0, 0>>, <<1, 1>>, <<1, 0>> >> }
-Init == /\ \/ \E X \in Small : \E kn \in Kernels(Len(X[1]), Len(X)), mf \in Means(Len(X[1])), sg \in Sigs(Len(X)) :
-                 pb = [X |-> X, y |-> Pre(Ys, Len(X)), sig |-> sg, kern |-> kn, mean |-> mf]
+Init == /\ \/ \E X \in Small : \E kn \in Kernels(Len(X[1]), Len(X)), mf \in Means(Len(X[1])), sg \in Sigs(Len(X)), yy \in YSets :
+                 pb = [X |-> X, y |-> Pre(yy, Len(X)), sig |-> sg, kern |-> kn, mean |-> mf]
            \/ \E X \in Big : \E kn \in {Se1(Len(X[1])), Rq1(Len(X[1])), Sum(<<Se1(Len(X[1])), Wn>>)}, mf \in {m \in Means(Len(X[1])) : m.k # "quad"},
                                 sg \in {Diag(<<<<1, 4>>, <<1, 4>>, <<1, 4>>>>), Diag(<<<<1, 1>>, <<1, 4>>, <<1, 2>>>>)} :
                  pb = [X |-> X, y |-> Ys, sig |-> sg, kern |-> kn, mean |-> mf]
